@@ -6,7 +6,7 @@ ID=$1; PATCH=$2; shift 2
 S=$(mktemp -d /tmp/rigseed.XXXXXX)
 cp -r /repo/rig "$S"/
 ( cd "$S" && git init -q . >/dev/null 2>&1 && git apply --unsafe-paths "$PATCH" ) || { echo "PATCH DID NOT APPLY"; rm -rf "$S"; exit 3; }
-cd /verif && RIG_REPO=$S timeout 3000 ./check $ID --no-evidence "$@" 2>&1 | grep -E "^(VIOLATION|INCONCLUSIVE|violated|KNOWN|C[0-9]+ )" | cut -c1-400 | head -10
+cd /verif && RIG_REPO=$S timeout ${SEED_TIMEOUT:-900} ./check $ID --no-evidence "$@" 2>&1 | grep -E "^(VIOLATION|INCONCLUSIVE|violated|KNOWN|C[0-9]+ )" | cut -c1-400 | head -10
 rc=${PIPESTATUS[0]}
 echo "exit=$rc"
 rm -rf "$S"
